@@ -259,7 +259,7 @@ def main():
     ck.cov["not_covered"] = ("the file-level statement is proved for the LP reader MODEL and the writer's layout family only (C10_lp_written_file_partial, "
                              "C10_lp_expr_any_wrapping); for the other lexical freedoms (keyword spellings, comments, explicit '+', repeated terms, decimal / exponent "
                              "spellings inside files, several bound statements per line) the model is compared with the library file by file, not proved; "
-                             "no model of the MPS reader; blanks between 'inf' and '<=' are required by the reader and always rendered; SOS / REFROW not rendered")
+                             "the LP reader model is proved total (C10_lp_reader_total) and to depend on the bytes only through the cut lines (C10_lp_reader_cut, C10_lp_reader_bytes); no model of the MPS reader; blanks between 'inf' and '<=' are required by the reader and always rendered; SOS / REFROW not rendered")
     ck.assumptions = ["Coq kernel; extraction; OCaml", "renderers of checks/io_gen.py are independent of the Coq development", "harness h_io.c"]
     cleanup_scratch()
     ck.finish(trusted_base=["coqc 8.16.1 kernel", "OCaml extraction", "harness/h_io.c + checks/io_common.py + checks/io_gen.py + checks/C10.py"])
